@@ -130,6 +130,24 @@ def family(kind, cfg):
         return dataclasses.make_dataclass("DeserOnly", [("d", datetime.date), ("m", typing.Dict[str, datetime.date], F(default_factory=dict)),
                                                        ("x", int, F(default=1, metadata={"serialization_strategy": {"deserialize": int}}))],
                                           bases=(DataClassDictMixin,), namespace=ns2)
+    if kind == "nonefield":
+        # a field typed exactly None with a default and a description, next to ordinary nullable fields
+        return dataclasses.make_dataclass(
+            "Tomb", [("deleted", None, F(default=None, metadata={"description": "tombstone"})),
+                     ("n", typing.Optional[int], F(default=None)), ("m", typing.Optional[str], F(default="x"))],
+            bases=(DataClassDictMixin,), namespace=ns)
+    if kind == "ann_meta":
+        # Annotated metadata that cannot be hashed, on fields WITH non-None defaults
+        from mashumaro.jsonschema.annotations import Contains, DependentRequired
+        from mashumaro.jsonschema.models import JSONSchema as _JS
+
+        return dataclasses.make_dataclass(
+            "AnnMeta", [("u", typing.Annotated[int, {"doc": ["x"]}], F(default=3)),
+                        ("l", typing.Annotated[int, ["tag"]], F(default=4)),
+                        ("c", typing.Annotated[typing.Tuple[int, ...], Contains(_JS(enum=[1, 2]))], F(default=(1,))),
+                        ("d", typing.Annotated[typing.Dict[str, int], DependentRequired({"a": {"b"}})],
+                         F(default_factory=lambda: {"a": 1, "b": 2}))],
+            bases=(DataClassDictMixin,), namespace=ns)
     if kind == "ser_fn":
         # field-level serialize callables whose return annotation is itself a container / Optional / union
         return dataclasses.make_dataclass(
@@ -316,7 +334,58 @@ def setup(T, NODE, CTX, variant, **kw):
     S.pool = kw.get("pool")
     if variant == "prefix":
         S.family = family("nested", None)
+    if variant == "seq":
+        S.fresh = fresh_references(S.pool)
+        # every kind of the pool is built once here, so that each path (and the replay interpreter) starts from the same
+        # process state: whatever one build leaks into later builds is then visible deterministically
+        for nm in S.pool:
+            for all_refs in (False, True):
+                try:
+                    JSONSchemaBuilder(all_refs=all_refs).build(SHAPES[nm] if nm in SHAPES else family(nm, None))
+                except BaseException:
+                    pass
     return S
+
+
+FRESH_SRC = r"""
+import json, sys
+from vf.props import c20 as P
+from mashumaro.jsonschema import JSONSchemaBuilder
+from mashumaro.jsonschema.dialects import DRAFT_2020_12, OPEN_API_3_1
+nm = sys.argv[1]
+out = {}
+for all_refs in (False, True):
+    for oapi in (False, True):
+        try:
+            T = P.SHAPES[nm] if nm in P.SHAPES else P.family(nm, None)
+            b = JSONSchemaBuilder(dialect=OPEN_API_3_1 if oapi else DRAFT_2020_12, all_refs=all_refs)
+            sch = b.build(T)
+            out["%d%d" % (all_refs, oapi)] = [sch.to_dict(), {k: v.to_dict() for k, v in b.context.definitions.items()}]
+        except BaseException as e:
+            out["%d%d" % (all_refs, oapi)] = None
+print("FRESH " + json.dumps(out, default=repr, sort_keys=True))
+"""
+
+
+def fresh_references(pool):
+    """schema and definitions of every kind of the pool, each built in an interpreter of its own in which nothing else was
+    ever built: what a build must produce regardless of what the same process built before (no state shared between builds)"""
+    import json
+    import subprocess
+    import sys
+
+    refs = {}
+    for nm in pool:
+        p = subprocess.run([sys.executable, "-c", FRESH_SRC, nm], capture_output=True, text=True, timeout=300)
+        line = [ln for ln in p.stdout.splitlines() if ln.startswith("FRESH ")]
+        refs[nm] = json.loads(line[-1][6:]) if line else None
+    return refs
+
+
+def canon(x):
+    import json
+
+    return json.loads(json.dumps(x, default=repr, sort_keys=True))
 
 
 def build_one(T, c):
@@ -365,6 +434,15 @@ def seq_main(S, env):
             if ok is not True:
                 return ok
             snapshots.append({k: v.to_dict() for k, v in b.context.definitions.items()})
+            ref = (S.fresh.get(nm) or {}).get("%d%d" % (all_refs, oapi))
+            if ref is not None:
+                # the result must not depend on anything this process (or this builder) built before
+                if canon(sch.to_dict()) != ref[0]:
+                    return fail("C20/build-depends-on-earlier-builds", name=nm, sequence=names, got=sch.to_dict(), fresh=ref[0])
+                for k, v in ref[1].items():
+                    if canon(snapshots[-1].get(k)) != v:
+                        return fail("C20/build-depends-on-earlier-builds", name=nm, definition=k, sequence=names,
+                                    got=snapshots[-1].get(k), fresh=v)
         # definitions accumulate consistently: an earlier definition is never dropped or changed by a later build
         for a, bb in zip(snapshots, snapshots[1:]):
             for k, v in a.items():
